@@ -10,7 +10,13 @@ export GOFLAGS=-mod=mod GOPROXY=off
 go build ./... || { echo "does not build"; exit 2; }
 cd /verif; mkdir -p /tmp/mutev; cp /verif/known_findings.json /tmp/mutev/
 PROPS="$@"
-if [ -z "$PROPS" ]; then PROPS=$(./bin/gatecheck -list | awk '{print $1}'); fi
+if [ -z "$PROPS" ]; then
+  # all checks, four at a time
+  out=$(GATECHECK_VERIF=/tmp/mutev ./bin/gatecheck -prop all -tier quick 2>&1)
+  echo "$out" | grep -v "^VIOLATION\|quick:\|^KNOWN" | grep "violated\|undecided" | cut -c1-400 | sed 's/^/== DETECTS: /' | head -40
+  echo "-- done"
+  exit 0
+fi
 for p in $PROPS; do
   out=$(GATECHECK_VERIF=/tmp/mutev ./bin/gatecheck -prop $p -tier quick 2>&1)
   if echo "$out" | grep -q "^VIOLATION"; then
